@@ -14,4 +14,5 @@ git -C "$wt" apply "$sd/patch.diff" || { echo "patch does not apply"; exit 2; }
 echo "== pinned test suite with the change"; (cd "$wt" && /venv/bin/python -m pytest -q -p no:cacheprovider --timeout=900 unittests/cargotests.py unittests/optiontests.py unittests/taptests.py unittests/versiontests.py 2>&1 | tail -1)
 echo "== demo on changed tree (expect non-zero)"; (cd /tmp && MESON_SRC="$wt" $runner "$demo" 2>&1 | tail -3; echo "exit=$?")
 echo "== ./check $prop --tier $tier against the changed tree"
-(cd /verif && VERIF_REPO="$wt" ./check "$prop" --tier "$tier" 2>&1 | tail -6; echo "check-exit=$?")
+out="/var/tmp/seedout-$prop"; mkdir -p "$out"
+(cd /verif && VERIF_REPO="$wt" VERIF_OUT="$out" ./check "$prop" --tier "$tier" > "$out/log" 2>&1; echo "check-exit=$?"; tail -6 "$out/log")
